@@ -316,7 +316,19 @@ fn run_op(ctx: &Ctx, line: &str) -> String {
     match op0 {
         "I" => or_panic(guarded(|| {
             let v: Vec<String> = pm.iter().map(|it| show_item(&it)).collect();
-            v.join(";")
+            // the iterator adapters (nth / skip / step_by / last / count) must walk the same stream
+            let mut ok = pm.iter().count() == v.len() && pm.iter().last().map(|it| show_item(&it)) == v.last().cloned();
+            for k in [0usize, 1, 2, 3, 5, 8] {
+                ok &= pm.iter().nth(k).map(|it| show_item(&it)) == v.get(k).cloned();
+                ok &= pm.iter().skip(k).next().map(|it| show_item(&it)) == v.get(k).cloned();
+            }
+            let stepped: Vec<String> = pm.iter().step_by(2).map(|it| show_item(&it)).collect();
+            ok &= stepped == v.iter().step_by(2).cloned().collect::<Vec<_>>();
+            if ok {
+                v.join(";")
+            } else {
+                format!("{};ITERATOR-PROTOCOL", v.join(";"))
+            }
         })),
         "D" => or_panic(guarded(|| {
             let s = pm.summary();
@@ -452,6 +464,29 @@ fn run_op(ctx: &Ctx, line: &str) -> String {
             let su2 = sec.section(0..(b - a)).uuid();
             let after = pm.uuid();
             format!("u={};again={};parent_stable={}", hex(su.as_bytes()), hex(su2.as_bytes()), (before == after) as u8)
+        })),
+        "SEC" => or_panic(guarded(|| {
+            let (a, b): (usize, usize) = (toks[1].parse().expect("start"), toks[2].parse().expect("end"));
+            let (a, b) = (a.min(ctx.mapping.len()), b.min(ctx.mapping.len()));
+            let (a, b) = (a.min(b), b);
+            // history: the parent answers everything first
+            let _ = (pm.has_line_info(), pm.is_valid(), pm.summary().class_count(), pm.iter().count());
+            let mut pw = Vec::new();
+            let _ = ProguardCache::write(&pm, &mut pw);
+            let sec = pm.section(a..b);
+            let fresh = ProguardMapping::new(&ctx.mapping[a..b]);
+            let show = |m: &ProguardMapping| {
+                let s = m.summary();
+                let mut w = Vec::new();
+                let r = ProguardCache::write(m, &mut w).is_ok();
+                let items: Vec<String> = m.iter().map(|it| show_item(&it)).collect();
+                format!("{}|{}|{:?}|{:?}|{:?}|{}|{}|{}|{}|{}", m.has_line_info(), m.is_valid(), s.compiler(), s.compiler_version(), s.min_api(), s.class_count(), s.method_count(), r, hex(&w), items.join(";"))
+            };
+            let same = show(&sec) == show(&fresh);
+            // and the parent is not influenced by its sections
+            let mut pw2 = Vec::new();
+            let _ = ProguardCache::write(&pm, &mut pw2);
+            format!("sec={};parent={}", same as u8, (pw == pw2) as u8)
         })),
         "DOM" => format!("dom={}", crate::props::representable(ctx.mapping) as u8),
         "Z" | "ZI" => or_panic(guarded(|| run_sink_op(ctx.mapping, &toks[1..]))),
@@ -1038,7 +1073,7 @@ fn run_sink_op(mapping: &[u8], toks: &[&str]) -> String {
 }
 
 fn is_group_op(l: &str) -> bool {
-    matches!(l.split(' ').next().unwrap_or(""), "I" | "D" | "K" | "T" | "L" | "P" | "KI" | "TI" | "LI" | "PI" | "S" | "Y" | "YA" | "G" | "W" | "U" | "Z" | "ZI" | "DOM" | "US")
+    matches!(l.split(' ').next().unwrap_or(""), "I" | "D" | "K" | "T" | "L" | "P" | "KI" | "TI" | "LI" | "PI" | "S" | "Y" | "YA" | "G" | "W" | "U" | "Z" | "ZI" | "DOM" | "US" | "SEC")
 }
 fn is_x_op(l: &str) -> bool {
     matches!(l.split(' ').next().unwrap_or(""), "k" | "t" | "l" | "p" | "s" | "g")
